@@ -18,3 +18,32 @@ package exported
 //@
 //@ iface ClientState.VerifyPacketCleanCommitment(ctx, store, cdc, height, proof, sourceChain, destChain, sequence) (err)
 //@   ensures rel: err == nil <==> VerifiedClean(self, tibc, clientOf(store), now(), height.GetRevisionNumber(), height.GetRevisionHeight(), proof, sourceChain, destChain, sequence)
+//@
+//@ // pure observers of opaque light-client values
+//@ iface ClientState.ClientType() (result)
+//@   flags getter
+//@ iface ClientState.GetLatestHeight() (result)
+//@   flags getter
+//@ iface Height.String() (result)
+//@   flags getter
+//@ iface Height.GetRevisionNumber() (result)
+//@   flags getter
+//@ iface Height.GetRevisionHeight() (result)
+//@   flags getter
+//@ iface Header.GetHeight() (result)
+//@   flags getter
+//@ iface Header.ClientType() (result)
+//@   flags getter
+//@
+//@ // what the client keeper may assume of a light client's state-changing methods: they write only below the client's
+//@ // own prefix (for the three in-repo implementations this is an obligation on their bodies: C07/C17/C18)
+//@ spec statusOf(cs: obj, S: store, client: str, now: Int): str
+//@ iface ClientState.Initialize(ctx, cdc, store, consState) (err)
+//@   modifies tibc
+//@   ensures frame: forall k: key :: !inClient(k, clientOf(store)) ==> tibc[k] == old(tibc)[k]
+//@ iface ClientState.Status(ctx, store, cdc) (result)
+//@   ensures def: result == statusOf(self, tibc, clientOf(store), now())
+//@ iface ClientState.CheckHeaderAndUpdateState(ctx, cdc, store, header) (newCS, newCons, err)
+//@   modifies tibc
+//@   ensures frame: forall k: key :: !inClient(k, clientOf(store)) ==> tibc[k] == old(tibc)[k]
+//@   ensures nonnil: err == nil ==> newCS != nil && newCons != nil
